@@ -305,7 +305,7 @@ def c01(W, replay=None):
         scen += random_histories(W, 600 if thorough else 60, faults=True)
         scen += parallel_family(W, 200 if thorough else 20)
         scen += [x for x in family(W, "C15", "quick") if "/body/" in x["id"]]        # odd token-endpoint bodies (C01 rule for them)
-        scen += [x for x in timeout_system_scenarios(W)] + decoy_family(W) + after_deny_family(W) + replica_family(W) + env_std(W) + debug_family(W) + subsecond_family(W)
+        scen += [x for x in timeout_system_scenarios(W)] + decoy_family(W) + after_deny_family(W) + replica_family(W) + env_std(W) + debug_family(W) + subsecond_family(W) + nearby_paths_family(W)
     return sys_pipeline("C01", W, scen, None, [
         "the ID-token expiry and signature ground truth comes from the simulated identity provider",
         "one check runs at a time between gates (store, token endpoint, key lookup); real parallelism inside a store call is C12's subject",
@@ -395,6 +395,10 @@ def discovery_family(W):
         for doc in ("pkcePlainOnly", "noMethods"):
             f = dict(F1, store=st, discovery=True, discoveryDoc=doc)
             res.append({"id": "discovery/%s/%s" % (doc, st), "cfg": {"filters": [f]}, "steps": [browse("b1", "f1", 1), app("b1", "f1")], "tags": ["discovery"]})
+        # a discovered provider AND an explicitly configured end-session URI: the configured one is the one the logout answer names
+        f = dict(F1, store=st, discovery=True, logoutRedirect="https://sso.example/configured-logout?src=app")
+        res.append({"id": "discovery/configuredLogout/%s" % st, "cfg": {"filters": [f]},
+                    "steps": [browse("b1", "f1", 1), app("b1", "f1"), {"op": "check", "b": "b1", "f": "f1", "kind": "logout", "cookie": "jar"}], "tags": ["discovery"]})
         f = dict(F1, store=st, discovery=True)
         res.append({"id": "discovery/outage/%s" % st, "cfg": {"filters": [f]},
                     "steps": [{"op": "idpctl", "d": 1}, app("b1", "f1", cookie="none"), app("b1", "f1", cookie="none"), browse("b1", "f1", 1), app("b1", "f1")], "tags": ["discoveryOutage"]})
@@ -572,6 +576,18 @@ def tamper_family(W):
                      {"op": "tamper", "cookie": "sid:1", "how": how}, dict(app_), {"op": "tick", "d": 90}, dict(app_), {"op": "tick", "d": 90}, dict(app_),
                      {"op": "tick", "d": 90}, dict(app_), {"op": "tick", "d": 90}, dict(app_), {"op": "check", "b": "b1", "f": "f1", "kind": "logout", "cookie": "sid:1"}]
             res.append({"id": "tamper/%s/a%d-i%d" % (how, a, i), "cfg": {"filters": [dict(F1, store="redis", abs=a, idle=i)]}, "steps": steps, "tags": ["tamper"]})
+    return res
+
+
+def nearby_paths_family(W):
+    """Application requests for paths next to the callback and the logout path (a sibling, a longer path, a trailing slash, other
+    case): they are application paths like any other - OK with a live session and nothing else in the answer, a login redirect without."""
+    res = []
+    for st in ("memory", "redis"):
+        steps = [browse("b1", "f1", 1)]
+        for k in range(10, 18):
+            steps += [app("b1", "f1", url=k), app("b2", "f1", cookie="none", url=k)]
+        res.append({"id": "nearby/%s" % st, "cfg": {"filters": [dict(F1, store=st)]}, "steps": steps, "tags": ["nearbyPaths"]})
     return res
 
 
@@ -902,6 +918,8 @@ def c02(W, replay=None):
         for stname in ("memory", "redis"):
             scen += [conv(m, "c02/race/%s/%d" % (stname, i), 1, store=stname, probes=finish_all(m) + [PROBE_APP]) for i, m in enumerate(ms)]
         scen += same_client_family(W) + after_deny_family(W) + dup_chain_family(W)
+        # compliant answers in all their shapes (without expires_in, without a refresh token, ...): what is forwarded is what is bound
+        scen += [x for x in family(W, "C03", "quick") if x["id"].endswith("/u1")] + env_std(W, 60) + debug_family(W, 40)
         if W.tier == "thorough":
             scen += random_histories(W, 800, faults=True)
     extra = []
@@ -1043,7 +1061,7 @@ def c14(W, replay=None):
             ms = export(W, "c14-%s" % prep, Prepared='"%s"' % prep, Target=1, MaxFaults=2 if W.tier == "thorough" else 1, Checks="{1,2,3,4}", MaxSid=3, MaxTok=4, **kw)
             scen += [conv(m, "c14/%s/%d" % (prep, i), 1, store=("memory", "redis")[i % 2], probes=finish_all(m) + [PROBE_APP]) for i, m in enumerate(ms)]
         scen += random_histories(W, 500 if W.tier == "thorough" else 50, faults=True)
-        scen += after_deny_family(W) + discovery_family(W) + parallel_family(W, 100 if W.tier == "thorough" else 10) + secret_rotation_family(W) + env_std(W) + debug_family(W)
+        scen += after_deny_family(W) + discovery_family(W) + parallel_family(W, 100 if W.tier == "thorough" else 10) + secret_rotation_family(W) + env_std(W) + debug_family(W) + nearby_paths_family(W)
     return sys_pipeline("C14", W, scen, None, ASSUME_SYS + ["every secret is a unique marker; an occurrence raw, percent-, base64-, base64url- or hex-encoded is detected"], replay=replay)
 
 
